@@ -147,6 +147,15 @@ func (r *Run) CreateCollStep(op Op) {
 		return
 	}
 	w.Model.Colls[op.C].Dropped = false
+	if len(w.Cfg.Feeds) > 0 {
+		// worlds with feeds keep one on every collection (the view oracle learns each version's
+		// datatype from its live event)
+		if c, err := w.StartLiveFeed(FeedCfg{H: 0, C: op.C}); err == nil {
+			w.Feeds = append(w.Feeds, c)
+		} else {
+			r.dev("create.feed", c11, "StartDCPFeed on the newly created %s failed: %v", w.Cfg.Colls[op.C], err)
+		}
+	}
 	if got, err := r.listColls(op.H); err != nil || strings.Join(got, ",") != strings.Join(r.wantColls(), ",") {
 		r.dev("create.list", c11, "after re-creating %s ListDataStores = %v (err %v), expected %v", w.Cfg.Colls[op.C], got, err, r.wantColls())
 	}
@@ -199,6 +208,7 @@ func (r *Run) GhostWriteStep(op Op) {
 		return
 	}
 	r.SyncFeeds()
+	r.ghostWrites++
 	ds := g.DS[op.H%len(g.DS)]
 	what, _ := op.Arg["what"].(string)
 	nDev := len(r.Devs)
